@@ -29,7 +29,7 @@ WARM = 2.0
 
 def build():
     from pydsol.core.model import DSOLModel
-    from pydsol.core.streams import MersenneTwister
+    from pydsol.core.streams import MersenneTwister, StreamInformation
     from pydsol.core.distributions import DistExponential, DistDiscreteUniform
     from pydsol.core.statistics import SimCounter, SimTally, SimPersistent
     from pydsol.core.pubsub import EventListener, EventProducer, EventType
@@ -85,6 +85,9 @@ def build():
             self.nh = 0
             self.log = []
             self.stream = MersenneTwister(20240601)
+            # the documented default stream and an explicitly zero-seeded one
+            self.dflt = StreamInformation().get_stream("default")
+            self.zero = MersenneTwister(0)
             self.ia = DistExponential(self.stream, 0.8)
             self.grid = DistDiscreteUniform(self.stream, 0, 3)
             self.bus = EventProducer()
@@ -104,6 +107,8 @@ def build():
 
         def hook(self, name):
             self.nh += 1
+            if self.nh > 5000:
+                raise RuntimeError("runaway")     # watchdog
             self.log.append((name, float(self.simulator.simulator_time).hex()))
             if self.stop_at is not None and self.nh == self.stop_at:
                 self.stop_at = None
@@ -129,7 +134,9 @@ def build():
 
         def extra(self, who):
             self.hook("extra:%s" % who)
-            self.tal.register(float(len(self.log) % 7))
+            self.tal.register(float(len(self.log) % 7)
+                              + self.dflt.next_float()
+                              + self.zero.next_float())
 
         def back(self, who):
             self.hook("back:%s" % who.name)
@@ -240,6 +247,12 @@ def prior_activity(kind):
          "cross20": 2 ** 20 - 3, "cross20b": 2 ** 20 - 4,
          "cross24": 2 ** 24 - 3}[kind]
     if n:
+        # earlier, unrelated use of default streams in this process
+        from pydsol.core.streams import StreamInformation, MersenneTwister
+        for _ in range(3):
+            st = StreamInformation().get_stream("default")
+            [st.next_float() for _ in range(7)]
+        MersenneTwister(0).next_float()
         junk = [EventType("C07_junk_%d_%s" % (i, kind)) for i in range(5)]
         keep = []
         for i in range(n):
